@@ -79,7 +79,7 @@ def run(R, tier):
         pure_names = {x.npath for x in pure}
         consts = LX.byte_constants(u, [b] + pure) | {ord(c) for c in ",+-.:"}
         classes = LX.byte_classes(consts)
-        models = dict(M.BYTE_MODELS)
+        models = dict(M.FOLD_MODELS)
         _inh = D.inline_inherent(("scpi::parser::expression::numeric_list::",), exclude=(NL + "NumericList::read_numeric_data",))
         engn = fdai.Engine(P, u, inline=lambda n, r: r.endswith(("error::Error::new", "error::Error::extended")) or r in pure_names or (not r.endswith("::read_numeric_data") and _inh(n, r)), models=models)
         bad = []
